@@ -23,14 +23,12 @@ package main
 //     association value or Catalog value.
 //
 // For every such pair both RankValues and CompareValues are called in both argument orders, and since
-// the generator knows whether the two values are equal the property's own statements are evaluated on
-// the observed answers (predicate_violations): equal values compare true and rank Equal, unequal ones
-// compare false and do not rank Equal, CompareValues is symmetric, RankValues is antisymmetric.
+// the generator knows whether the two values are equal that knowledge is checked on the observed answers
+// (knownRelationLaws in collatepred.go): equal values compare true and rank Equal, unequal ones compare
+// false and do not rank Equal - besides the laws every pair is subjected to (pairLaws).
 
 import (
-	"fmt"
 	"math"
-	"strings"
 )
 
 // definedLeaf draws a defined value to put where a nil was: half of the time a zero value
@@ -274,7 +272,7 @@ func genNeighbourFamily(r *rng) (na, nb *node, note string, equal bool) {
 		// the opposite corner: two integers so far apart that their difference does not fit the type
 		kind := []string{"int", "int64"}[r.intn(2)]
 		lows := []int64{math.MinInt64, math.MinInt64 + 1, -(1 << 62), -1}
-		highs := []int64{math.MaxInt64, math.MaxInt64 - 1, 1 << 62, 1, 2}
+		highs := []int64{math.MaxInt64, math.MaxInt64 - 1, 1 << 62, 0, 1, 2}
 		na = &node{kind: kind, prim: lows[r.intn(len(lows))]}
 		nb = &node{kind: kind, prim: highs[r.intn(len(highs))]}
 		if r.chance(1, 2) {
@@ -316,53 +314,44 @@ func genNeighbourFamily(r *rng) (na, nb *node, note string, equal bool) {
 	return na, nb, note, false
 }
 
-// nilFamilyPredicates evaluates the property's statements on the four observed answers for a pair whose
-// equality the generator knows.  Answers that are panics (depth limit) are left to the correspondence.
-func nilFamilyPredicates(note string, equal bool, rankAB, rankBA, cmpAB, cmpBA string) []string {
-	var bad []string
-	isR := func(s string) bool { return strings.HasPrefix(s, "(Some (R ") }
-	if isR(cmpAB) && isR(cmpBA) && cmpAB != cmpBA {
-		bad = append(bad, fmt.Sprintf("CompareValues is not symmetric on this pair (%s): %s one way, %s the other", note, cmpAB, cmpBA))
+// genCrossKind: two leaves of DIFFERENT kinds that a dispatch on the kind of the first operand alone, or a conversion
+// to the first operand's width, would confuse: a byte against a wider unsigned value beyond 255, a rune or a narrow
+// integer against a wider integer beyond its range, float32 against float64, unsigned against signed - alone or nested
+// (under `any` the two dynamic types simply meet).  What the property says about such a pair is not known to the
+// generator (int8(1) and int64(1) rank Equal and compare unequal): only the general laws are judged on it.
+func genCrossKind(r *rng) (na, nb *node, note string) {
+	type kv struct {
+		kind string
+		prim any
 	}
-	for _, c := range []string{cmpAB, cmpBA} {
-		if !isR(c) {
-			continue
-		}
-		if equal && c != "(Some (R true))" {
-			bad = append(bad, fmt.Sprintf("an independently rebuilt copy does not compare equal (%s)", note))
-		}
-		if !equal && c != "(Some (R false))" {
-			bad = append(bad, fmt.Sprintf("CompareValues returns true for two values that differ (%s)", note))
-		}
+	narrow := [][]kv{
+		{{"byte", uint64(5)}, {"byte", uint64(0)}, {"byte", uint64(44)}, {"byte", uint64(255)}, {"byte", uint64(3)}},
+		{{"uint16", uint64(7)}, {"uint16", uint64(65535)}, {"uint32", uint64(9)}, {"uint32", uint64(math.MaxUint32)}},
+		{{"int8", int64(-128)}, {"int8", int64(5)}, {"int8", int64(127)}, {"int16", int64(-3)}, {"int16", int64(32767)}},
+		{{"rune", int64(97)}, {"rune", int64(-1)}, {"rune", int64(math.MaxInt32)}},
+		{{"float32", float32(1.5)}, {"float32", float32(0.1)}, {"float32", float32(3.4028235e38)}},
 	}
-	for _, k := range []string{rankAB, rankBA} {
-		if !isR(k) {
-			continue
-		}
-		if equal && k != "(Some (R Eq))" {
-			bad = append(bad, fmt.Sprintf("an independently rebuilt copy does not rank Equal (%s)", note))
-		}
-		if !equal && k == "(Some (R Eq))" {
-			bad = append(bad, fmt.Sprintf("RankValues returns Equal for two values that differ (%s)", note))
-		}
+	wide := [][]kv{
+		{{"uint16", uint64(259)}, {"uint16", uint64(300)}, {"uint32", uint64(256)}, {"uint64", uint64(1<<32 + 5)}, {"uint", uint64(261)}, {"uint16", uint64(5)}, {"uint64", uint64(44)}},
+		{{"uint64", uint64(65536 + 7)}, {"uint", uint64(1<<32 + 9)}, {"uint64", uint64(math.MaxUint64)}, {"uint32", uint64(65536 + 7)}},
+		{{"int64", int64(128)}, {"int64", int64(256 + 5)}, {"int", int64(-129)}, {"int64", int64(65536 - 3)}, {"int", int64(1 << 40)}, {"int64", int64(5)}},
+		{{"int64", int64(1<<32 + 97)}, {"int", int64(math.MaxInt64)}, {"int64", int64(97)}, {"uint64", uint64(97)}},
+		{{"float64", float64(1.5)}, {"float64", float64(0.1)}, {"float64", float64(1e300)}, {"float64", float64(1.5000000000000002)}},
 	}
-	if isR(rankAB) && isR(rankBA) {
-		opp := map[string]string{"(Some (R Lt))": "(Some (R Gt))", "(Some (R Gt))": "(Some (R Lt))", "(Some (R Eq))": "(Some (R Eq))"}
-		if opp[rankAB] != rankBA {
-			bad = append(bad, fmt.Sprintf("RankValues is not antisymmetric on this pair (%s): %s one way, %s the other", note, rankAB, rankBA))
-		}
+	f := r.intn(len(narrow))
+	if r.chance(2, 5) {
+		f = 0 // bytes meet wider unsigned values most often
 	}
-	if isR(rankAB) && isR(cmpAB) && (rankAB == "(Some (R Eq))") != (cmpAB == "(Some (R true))") {
-		bad = append(bad, fmt.Sprintf("CompareValues and RankValues disagree (%s): compare %s, rank %s", note, cmpAB, rankAB))
+	x, y := narrow[f][r.intn(len(narrow[f]))], wide[f][r.intn(len(wide[f]))]
+	na, nb = &node{kind: x.kind, prim: x.prim}, &node{kind: y.kind, prim: y.prim}
+	if r.chance(1, 2) {
+		na, nb = nb, na
 	}
-	// the same sentence may arise from both argument orders: keep one of each
-	seen := map[string]bool{}
-	var out []string
-	for _, b := range bad {
-		if !seen[b] {
-			seen[b] = true
-			out = append(out, b)
-		}
+	note = "crosskind:" + x.kind + "/" + y.kind
+	for lvl := 0; lvl < 2 && r.chance(1, 3); lvl++ {
+		var w string
+		na, nb, w = wrapPair(r, na, nb)
+		note += " in " + w
 	}
-	return out
+	return na, nb, note
 }
